@@ -1,6 +1,7 @@
 package fs
 
 import (
+	"archive/tar"
 	"bytes"
 	"database/sql"
 	"io"
@@ -151,6 +152,19 @@ func (f *File) syncWithoutLocking() error {
 					f.log,
 				)
 
+				// `tar.FileInfoHeader` only takes the owner and the access/change times from a `*tar.Header`, not from our `Sys()`
+				hdr := &tar.Header{
+					Typeflag:   tar.TypeReg,
+					Name:       f.info.Name(),
+					Size:       size,
+					Mode:       int64(f.info.Mode().Perm()),
+					Uid:        uid,
+					Gid:        gid,
+					ModTime:    modTime,
+					AccessTime: accessTime,
+					ChangeTime: changeTime,
+				}
+
 				return config.FileConfig{
 					GetFile: func() (io.ReadSeekCloser, error) {
 						if _, err := f.writeBuf.Seek(0, io.SeekStart); err != nil {
@@ -159,7 +173,7 @@ func (f *File) syncWithoutLocking() error {
 
 						return f.writeBuf, nil
 					},
-					Info: f.info,
+					Info: hdr.FileInfo(),
 					Path: f.path,
 					Link: f.link,
 				}, nil
